@@ -41,6 +41,8 @@ def parse_url(url: str) -> tuple:
         raise ValueError("url is invalid")
 
     scheme, url = url.split(":", 1)
+    if not url.startswith("//"):
+        raise ValueError("url is invalid")
 
     parsed = urlsplit(url, scheme="http")
     if parsed.hostname:
